@@ -461,7 +461,7 @@ def str_is_serialize(ctx: Ctx) -> None:
     f = p.func("simfile._private.serializable:Serializable.__str__")
     sn = f.param_names()[0]
     loc = locals_of(f)
-    bufs = [n for n, bs in loc.b.items() for b in bs if b.kind == "assign" and isinstance(b.value, ast.Call) and callee_name(ctx, f, b.value).endswith("StringIO") and not b.value.args]
+    bufs = [n for n, bs in loc.b.items() for b in bs if b.kind == "assign" and isinstance(b.value, ast.Call) and callee_name(ctx, f, b.value).endswith("StringIO") and not b.value.args and not b.value.keywords]
     ok = len(bufs) == 1
     if ok:
         b = bufs[0]
